@@ -42,6 +42,8 @@ def gen_cases(tier, seed):
                "content": rng.randrange(4), "ack_limit": 3, "nak_limit": 3, "check_limit": 2, "disp": rng.random() < 0.4,
                "metadata_only": rng.random() < 0.04, "maxpkt": 128}
         cfg.update(request_extras(rng, 0.15))  # options and (binary) messages to user in the put request
+        if cfg["dest"] in ("file", "existing") and rng.random() < 0.12:
+            cfg["dst_name"] = rng.choice(["../dstdir/out.bin", "./out.bin", "../srcdir/../dstdir/up.bin"])  # destination names with '.' / '..' components
         faults = rng.choice([None, None, 0.1, 0.25, 0.4])
         cancel = None if rng.random() < 0.75 else [rng.choice("SD"), rng.randrange(1, 12)]
         reset_at = None if rng.random() < 0.9 else [rng.choice("SD"), rng.randrange(1, 12)]  # the user calls reset() in the middle of the transfer
